@@ -13,7 +13,7 @@ CONSTANTS
   LockGlobals = TRUE
   LockLocals = TRUE
   GCachePrefilled = TRUE
-  FillGlobalCachesUnderLock = FALSE
+  FillGlobalCachesUnderLock = TRUE
   SharedScratch = FALSE
   StaleLocals = FALSE
   Orphans = {}
